@@ -226,10 +226,10 @@ def run(tier):
     pipe.warm()
     funcs = []
     for n, (sig, e, ty, pn, src) in enumerate(accepted_bindings):
-        body = src[len(HEAD):].replace("def t(", f"def t{n}(")
+        body = (src[len(HEAD) : -len(TAIL)] if src.endswith(TAIL) else src[len(HEAD) :]).replace("def t(", f"def t{n}(")
         funcs.append((sig + (pn,), body))
     if tier != "thorough":
-        funcs = funcs[::3]
+        funcs = funcs[::6]
     PACKN = 40
     packs = [funcs[i : i + PACKN] for i in range(0, len(funcs), PACKN)]
 
@@ -259,6 +259,8 @@ def run(tier):
                 h = len(p) // 2
                 nxt += [p[:h], p[h:]]
         packs = nxt
+    if funcs and n_built * 2 < len(funcs):
+        raise common.MachineryError(f"dynamic half is vacuous: only {n_built} of {len(funcs)} accepted bindings compiled ({not_judged})")
     for key, cs in by_key.items():
         for c in cs[:2]:
             out.fail(key, c)
@@ -271,7 +273,7 @@ def run(tier):
         "exponent kind (non-negative / zero / negative literal, int variable, int sub-expression, float literal / variable), depth-2 (thorough: depth-3) nestings over int/float "
         "variables; module-level consts (int / float, annotated / inferred, declared before / after the function) as left or right operand of every operator with 4 partner kinds; each in 7 binding positions + 6 compound assignments x 6 right-hand kinds x int/float target x 8 block contexts (function body, if, else, elif, while, for, for+if, match arm) + const initialisers; static oracle = the table of "
         "numeric_semantics.md against the checker's recorded expression type and its accept/reject verdict; dynamic oracle = every accepted annotated binding compiles with rustc "
-        "(quick: every third)",
+        "(quick: every sixth)",
         "samples": [{"sig": list(s), "expr": e, "table_type": t} for s, e, t in common.pick_samples(exprs)],
         "exhaustive": True,
         "expressions": len(exprs),
